@@ -46,11 +46,12 @@ type c12Scenario struct {
 	SendOld    bool // a datagram from an accepted remote arrives during the controlled phase
 	Batch      bool
 	Inside     bool // the listener is created inside the session: its read loop and closer goroutine are tasks
+	Gate       bool // with SendNew: the accept filter parks the read loop on the late datagram until a task releases it
 }
 
 func (sc c12Scenario) String() string {
-	return fmt.Sprintf("accepted=%d unaccepted=%d lclose=%d cclose=%v accept=%d readers=%v sendNew=%v sendOld=%v batch=%v inside=%v",
-		sc.Accepted, sc.Unaccepted, sc.LClose, sc.CClose, sc.Accept, sc.Readers, sc.SendNew, sc.SendOld, sc.Batch, sc.Inside)
+	return fmt.Sprintf("accepted=%d unaccepted=%d lclose=%d cclose=%v accept=%d readers=%v sendNew=%v sendOld=%v batch=%v inside=%v gate=%v",
+		sc.Accepted, sc.Unaccepted, sc.LClose, sc.CClose, sc.Accept, sc.Readers, sc.SendNew, sc.SendOld, sc.Batch, sc.Inside, sc.Gate)
 }
 
 func genC12(t *rapid.T) c12Scenario {
@@ -63,6 +64,10 @@ func genC12(t *rapid.T) c12Scenario {
 		SendOld:    rapid.IntRange(0, 3).Draw(t, "sendOld") == 0,
 		Batch:      rapid.IntRange(0, 5).Draw(t, "batch") == 0,
 		Inside:     rapid.IntRange(0, 5).Draw(t, "inside") == 3,
+		Gate:       rapid.Bool().Draw(t, "gate"),
+	}
+	if rapid.IntRange(0, 3).Draw(t, "gateSend") == 2 {
+		sc.SendNew, sc.Gate = true, true // the window "first datagram inside the accept filter while Close runs"
 	}
 	for i := 0; i < sc.Accepted; i++ {
 		sc.CClose = append(sc.CClose, rapid.SampledFrom([]int{0, 1, 1, 2}).Draw(t, "cclose"))
@@ -118,6 +123,18 @@ func runC12(sc c12Scenario, ch sched.Chooser, c *ev.Case, logf func(string, ...a
 	}
 	before := udpGoroutines()
 	lc := udp.ListenConfig{}
+	gateEntered := make(chan struct{}, 4)
+	gateRelease := make(chan struct{})
+	gateAbort := make(chan struct{})
+	if sc.Gate && sc.SendNew {
+		lc.AcceptFilter = func(b []byte) bool {
+			if string(b) == "late-new" {
+				gateEntered <- struct{}{}
+				<-gateRelease
+			}
+			return true
+		}
+	}
 	if sc.Batch {
 		lc.Batch = udp.BatchIOConfig{Enable: true, ReadBatchSize: 4, WriteBatchSize: 1, WriteBatchInterval: time.Millisecond}
 	}
@@ -285,12 +302,36 @@ func runC12(sc c12Scenario, ch sched.Chooser, c *ev.Case, logf func(string, ...a
 	}
 	if sc.SendNew {
 		s.Go("send-new", wait(func() { _, _ = newRemote().Write([]byte("late-new")) }))
+		if sc.Gate {
+			// releases the read loop parked inside the accept filter at a scheduled moment
+			s.Go("gate-release", wait(func() {
+				select {
+				case <-gateEntered:
+				case <-gateAbort:
+					// the listener was closed before the datagram arrived: nothing is parked
+					return
+				}
+				s.Yield("gate:release")
+				close(gateRelease)
+			}))
+		}
 	}
 	if sc.SendOld && sc.Accepted > 0 {
 		s.Go("send-old", wait(func() { _, _ = accRemote[0].Write([]byte("late-old")) }))
 	}
 	defer func() {
 		endSession()
+		close(gateAbort)
+		if sc.Gate && sc.SendNew {
+			select {
+			case <-gateRelease:
+			default:
+				func() {
+					defer func() { _ = recover() }()
+					close(gateRelease)
+				}()
+			}
+		}
 		// an interrupted setup task goes on in pass-through mode: let it finish
 		// so that everything it creates is closed below
 		select {
